@@ -1478,3 +1478,44 @@ Definition g_gcsa_add_recurring {TZ : Type} {TZNAME : Type} {DV : Type} {TIME : 
       else
         let result_event := (mk_result_event (created_id created_event) self_calendar_id self_calendar_summary summary description None is_all_day validated_reminders series_start_ts series_end_ts) in
         (wrs_success result_event).
+
+(* calgebra/gcsa.py: _error_result *)
+Definition g_gcsa_error_result {EXC : Type} {WRS : Type} (wrs_error : EXC -> WRS) (error : EXC) : WRS :=
+  (wrs_error error).
+
+(* calgebra/gcsa.py: _handle_write_errors *)
+Definition g_gcsa_handle_write_errors {EXC : Type} {WRS : Type} (wrs_error : EXC -> WRS) (func_call : WRS + EXC) : res WRS :=
+  match func_call with
+  | inl v_ =>
+    (RDone v_)
+  | inr e =>
+    (RDone (g_gcsa_error_result wrs_error e))
+  end.
+
+(* calgebra/gcsa.py: Calendar._remove_recurring_instance *)
+Definition g_gcsa_remove_recurring_instance {TZ : Type} {DT : Type} {EXD : Type} {RR : Type} {PART : Type} {RECL : Type} {MEV : Type} {ID : Type} {AEV : Type} {EXC : Type} {WRS : Type} (tz_utc : TZ) (dt_fromtimestamp : Z -> TZ -> DT) (dt_strftime_exdate : DT -> EXD) (parse_exdates_from_rrule : RR -> RR * list EXD) (exd_eqb : EXD -> EXD -> bool) (mk_exdate_part : list EXD -> PART) (rr_snoc : RR -> PART -> RR) (get_event : ID -> MEV + EXC) (update_event : MEV -> unit + EXC) (mev_has_recurrence : MEV -> bool) (mev_line : MEV -> RR) (mev_recurrence_with : MEV -> RR -> RECL) (mev_set_recurrence : MEV -> RECL -> MEV) (wrs_error_fetch : ID -> EXC -> WRS) (wrs_error_norec : ID -> WRS) (wrs_error_nostart : WRS) (wrs_error_update : EXC -> WRS) (wrs_success : AEV -> WRS) (aev_start : AEV -> option Z) (instance : AEV) (master_event_id : ID) : res WRS :=
+  match (get_event master_event_id) with
+  | inl master_event =>
+    if (negb (mev_has_recurrence master_event)) then
+      (RDone (wrs_error_norec master_event_id))
+    else
+      let rrule_str := (mev_line master_event) in
+      if (is_none (aev_start instance)) then
+        (RDone wrs_error_nostart)
+      else
+        let exdate_str := (g_gcsa_format_exdate tz_utc dt_fromtimestamp dt_strftime_exdate (ozd (aev_start instance))) in
+        let '(_, existing_exdates) := (parse_exdates_from_rrule rrule_str) in
+        if (negb (existsb (exd_eqb exdate_str) existing_exdates)) then
+          let new_rrule := (g_gcsa_add_exdate_to_rrule parse_exdates_from_rrule exd_eqb mk_exdate_part rr_snoc rrule_str exdate_str) in
+          let master_event := (mev_set_recurrence master_event (mev_recurrence_with master_event new_rrule)) in
+          match (update_event master_event) with
+          | inl _ =>
+            (RDone (wrs_success instance))
+          | inr e =>
+            (RDone (wrs_error_update e))
+          end
+        else
+          (RDone (wrs_success instance))
+  | inr e =>
+    (RDone (wrs_error_fetch master_event_id e))
+  end.
